@@ -771,6 +771,35 @@ def search(tier, seed, out):
     return o2.oracle_violations[0] if o2.oracle_violations else None
 
 
+def explain_mismatch(c):
+    """run one case through the implementation and through the model's full observation vectors (Corr.model_full) and
+    describe the first difference (development / replay aid)"""
+    import re
+    binary = common.go_build("c06drv", test=True)
+    o = common.run_driver(binary, [c], args="-test.run ^TestDriver$", shards=1)[0]
+    if o.get("err"):
+        return "driver: " + o["err"]
+    v = ("From Coq Require Import ZArith List. Import ListNotations.\nFrom Osmo Require Import Base.Obs C06.Model C06.Corr.\nOpen Scope Z_scope.\n"
+         "Definition c : case := %s.\nDefinition F := Eval vm_compute in model_full c.\nPrint F.\n" % coq_case(c, []))
+    rc, out = common.coq_eval("C06_explain", v)
+    m = re.search(r"F\s*=\s*(\[.*\])\s*:\s*list \(list Z\)", out.replace("\n", " "))
+    if rc != 0 or not m:
+        return "model evaluation failed: " + out[-400:]
+    rows = [[int(x) for x in re.findall(r"-?\d+", row)] for row in re.findall(r"\[([^\[\]]*)\]", m.group(1))]
+    if len(rows) != len(c["ops"]):
+        return "could not parse the model's output (%d rows for %d operations)" % (len(rows), len(c["ops"]))
+    for i, (op, code, flat, row) in enumerate(zip(c["ops"], o["codes"], o["flat"], rows)):
+        mc, mf = row[0], row[1:]
+        if not (mc == code or (code == 13 and mc != 0)):
+            return "op %d %s: result code implementation %d, model %d" % (i, {k: v for k, v in op.items() if k != "q"}, code, mc)
+        if mf != list(flat):
+            j = next((k for k in range(min(len(mf), len(flat))) if mf[k] != flat[k]), min(len(mf), len(flat)))
+            return ("op %d %s: observation vectors differ at position %d (implementation %s, model %s; lengths %d / %d); state part = block time, last id, "
+                    "module balances, #denoms, account balances, lock records, accumulations; then the query sweep"
+                    % (i, {k: v for k, v in op.items() if k != "q"}, j, flat[j:j + 6], mf[j:j + 6], len(flat), len(mf)))
+    return "no difference found"
+
+
 def replay(path):
     d = json.load(open(path))
     c = d["case"].get("case") if isinstance(d.get("case"), dict) else None
@@ -783,6 +812,7 @@ def replay(path):
         print("oracle:", v["what"])
     for m in out.mismatches:
         print("mismatch:", m["what"])
+        print("  ", explain_mismatch(c))
     return 1 if (out.oracle_violations or out.mismatches) else 0
 
 
